@@ -553,9 +553,110 @@ def size_aliases(fn_body, amp):
     return out
 
 
-def state_sweep(s, amp, bit_ids, aliases=()):
-    """('flat', loop var decl, body) | ('blocked', (outer var id, inner var id), body) | None"""
+class BadSweep(NotPairwise):
+    """the loop has the shape of a known sweep scheme over the pairs of qubit q but one of its ingredients is wrong"""
+
+
+def _unwritten_locals(fn_body):
+    written = set()
+    decls = {}
+    for n in SX.walk(fn_body, into_lambdas=False):
+        w = SX.write_target(n)
+        if w and SX.is_node(SX.strip(w[0])) and SX.strip(w[0]).get('k') == 'ref':
+            written.add(SX.strip(w[0]).get('id'))
+        if n.get('k') == 'var' and SX.is_node(n.get('init')):
+            decls[n['id']] = n
+    return {i: d for i, d in decls.items() if i not in written}
+
+
+def _deposit(s, amp, bit_ids, aliases, fn_body):
+    """`for (k = 0; k < size/2; ++k) { idx0 = ((k & ~(bit-1)) << 1) | (k & (bit-1)); … }` — the pairs enumerated by the bits of the
+    other qubits: k is split around position q and a clear bit q is inserted, so idx0 runs over every index with bit q clear exactly
+    once.  → one visit with idx0 as the bit-clear cell; BadSweep when the split mask is not 2^q − 1; None when not of this form."""
     c = _counted(s)
+    if not c or not (c[2] is None or (SX.is_node(SX.strip(c[2])) and SX.strip(c[2]).get('v') == 1)):
+        return None
+    v, bound, _ = c
+    loc = _unwritten_locals(fn_body) if fn_body is not None else {}
+
+    def peel(e):
+        e = SX.strip(e)
+        while SX.is_node(e) and e.get('k') == 'cast':
+            e = SX.strip(e['e'])
+        return e
+
+    def is_half(e, depth=0):
+        e = peel(e)
+        if not SX.is_node(e) or depth > 3:
+            return False
+        if e.get('k') == 'bin' and e['op'] == '>>' and _is_size(e['l'], amp, aliases) and peel(e['r']).get('v') == 1:
+            return True
+        if e.get('k') == 'bin' and e['op'] == '/' and _is_size(e['l'], amp, aliases) and peel(e['r']).get('v') == 2:
+            return True
+        return e.get('k') == 'ref' and e.get('id') in loc and is_half(loc[e['id']]['init'], depth + 1)
+
+    def is_bit(e):
+        e = peel(e)
+        return SX.is_node(e) and e.get('k') == 'ref' and e.get('id') in bit_ids
+
+    def low_mask(e, depth=0):
+        """True: 2^q − 1; False: something else"""
+        e = peel(e)
+        if not SX.is_node(e) or depth > 3:
+            return False
+        if e.get('k') == 'bin' and e['op'] == '-' and is_bit(e['l']) and peel(e['r']).get('k') == 'int' and peel(e['r']).get('v') == 1:
+            return True
+        return e.get('k') == 'ref' and e.get('id') in loc and low_mask(loc[e['id']]['init'], depth + 1)
+
+    if not is_half(bound):
+        return None
+    body = s['body']['body'] if s['body'].get('k') == 'block' else None
+    if not body or body[0].get('k') != 'decls' or len(body[0]['d']) != 1:
+        return None
+    d = body[0]['d'][0]
+    e = peel(d.get('init'))
+    if not (SX.is_node(e) and e.get('k') == 'bin' and e['op'] in ('|', '+')):
+        return None
+
+    def is_k(x):
+        x = peel(x)
+        return SX.is_node(x) and x.get('k') == 'ref' and x.get('id') == v['id']
+
+    def and_parts(x):
+        x = peel(x)
+        if SX.is_node(x) and x.get('k') == 'bin' and x['op'] == '&':
+            if is_k(x['l']):
+                return peel(x['r'])
+            if is_k(x['r']):
+                return peel(x['l'])
+        return None
+    hi = lo = None
+    for a, b in ((e['l'], e['r']), (e['r'], e['l'])):
+        a = peel(a)
+        if SX.is_node(a) and a.get('k') == 'bin' and a['op'] == '<<' and peel(a['r']).get('v') == 1:
+            m1 = and_parts(a['l'])
+            m0 = and_parts(b)
+            if m1 is not None and m0 is not None and m1.get('k') == 'un' and m1.get('op') == '~':
+                hi, lo = peel(m1['e']), m0
+    if hi is None:
+        return None
+    for n in SX.walk({'k': 'block', 'body': body[1:]}, into_lambdas=False):
+        w = SX.write_target(n)
+        if w and SX.is_node(SX.strip(w[0])) and SX.strip(w[0]).get('id') == d['id']:
+            return None
+    if not (low_mask(hi) and low_mask(lo)):
+        raise BadSweep('the pairs are enumerated by splitting %s around the mask %s, which is not 2^q − 1: some pairs are visited twice and others never' % (
+            v.get('name'), SX.show(lo if not low_mask(lo) else hi)[:30]))
+    return [{'iv': None, 'b': 0, 'zero': {d['id']}, 'body': {'k': 'block', 'body': body[1:]}}]
+
+
+def state_sweep(s, amp, bit_ids, aliases=(), fn_body=None):
+    """('flat', loop var decl, body) | ('blocked', (outer var id, inner var id), body) | ('plan', visits) | None"""
+    c = _counted(s)
+    if bit_ids:
+        dp = _deposit(s, amp, bit_ids, aliases, fn_body)
+        if dp is not None:
+            return ('plan', dp)
     if not c or not _is_size(c[1], amp, aliases):
         hv = _halves(s, amp, bit_ids, aliases)      # (a block loop may start at 2^q: the halves with bit q set)
         return ('plan', hv) if hv is not None else None
